@@ -5,6 +5,10 @@
 (*  Mode "feed": the parser fed byte by byte from a small alphabet after a version field.  *)
 EXTENDS TxWire, TLC, Json
 
+\* the symbolic lemma module (Apalache: RoundTrip for every value below 2^31) talks about this very codec
+VI == INSTANCE VarIntInd WITH n <- 0
+ASSUME \A k \in {0, 1, 252, 253, 254, 255, 256, 65535, 65536, 65537, 70000, 16777215, 16777216, 2147483646} : VarIntEnc(k) = VI!Enc(k)
+
 CONSTANTS Mode, MaxFeed, MaxOuts
 
 \* ---- model transactions ------------------------------------------------------------------
